@@ -181,6 +181,8 @@ def strat_nuts(tier):
     return st.fixed_dictionaries({
         'target': target_desc(), 'n_iter': st.integers(2, 120), 'n_adapt': st.one_of(st.none(), st.integers(0, 40)),
         'seed': st.integers(0, 2 ** 32 - 1), 'near_edge': st.booleans(), 'max_depth': st.sampled_from([5, 3, 2]),
+        # the starting point rounded to whole numbers (when that point is valid) and handed over as an integer array
+        'int_start': st.sampled_from([False, False, True]),
     })
 
 
@@ -189,13 +191,20 @@ def run_nuts(case):
     t = Target(case['target'])
     rs = np.random.RandomState(case['target']['seed'] + 7)
     x0 = t.start(rs, case['near_edge'])
-    ctx = 'target=%r n_iter=%d n_adapt=%r seed=%d max_depth=%d x0=%r' % (case['target'], case['n_iter'], case['n_adapt'], case['seed'], case['max_depth'], x0.tolist())
+    int_start = False
+    if case.get('int_start'):
+        xi = np.ceil(x0) if t.kind in ('half', 'nan-half', 'exp') else np.round(x0)
+        v = t(xi)
+        if not (math.isinf(v) or math.isnan(v)):
+            x0 = xi
+            int_start = True
+    ctx = 'target=%r n_iter=%d n_adapt=%r seed=%d max_depth=%d x0=%r%s' % (case['target'], case['n_iter'], case['n_adapt'], case['seed'], case['max_depth'], x0.tolist(), ' (passed as an int64 array)' if int_start else '')
     kw = dict(n_adapt=case['n_adapt'], seed=case['seed'], max_depth=case['max_depth'])
 
-    def run():
+    def run(as_int=int_start):
         tt = Target(case['target'])
         with np.errstate(all='ignore'):
-            return nuts(case['n_iter'], x0.copy(), tt, tt.grad, **kw)
+            return nuts(case['n_iter'], x0.astype(np.int64) if as_int else x0.copy(), tt, tt.grad, **kw)
     try:
         with time_limit(300, 'C09:nuts-hangs', 'nuts'):
             got = np.asarray(run())
@@ -211,6 +220,13 @@ def run_nuts(case):
         raise Violation('C09:nuts-shape', 'returned %r states for n_iter=%d in %d dimensions; %s' % (got.shape, case['n_iter'], t.d, ctx))
     if not np.array_equal(got, got2, equal_nan=True):
         raise Violation('C09:nuts-nondeterministic', 'two runs with one seed differ; %s' % ctx)
+    if int_start:
+        # the same starting point as float64: the chain is a function of (target, point, seed), not of the array's dtype
+        got3 = np.asarray(run(as_int=False))
+        if not np.array_equal(got, got3, equal_nan=True):
+            k = int(np.argmax(np.any(np.atleast_2d(got != got3), axis=-1)))
+            raise Violation('C09:nuts-depends-on-start-dtype', 'the chain from the integer-typed start differs from the chain from the same point as float64 '
+                            '(same seed), first at state %d: %r vs %r; %s' % (k, got[k].tolist(), got3[k].tolist(), ctx))
     moved = False
     for k, x in enumerate(got):
         v = t(x)
@@ -221,6 +237,8 @@ def run_nuts(case):
     labels = ['target=' + t.kind]
     if case['near_edge']:
         labels.append('start-near-edge')
+    if int_start:
+        labels.append('integer-typed-start')
     support = t.kind != 'gauss'
     return CaseResult(labels, True if (moved and support) else None)
 
